@@ -21,6 +21,8 @@ CLAIMED = {
     "C12": ("§4 C12", "Open announced only by the call performing Connecting->Open (or on a freshly created channel), Close only by the call performing ->Closed, Closed terminal; fragments under one queue guard with B/E flags on the first/last-fragment edges; SSN under send_lock; DCEP type table/PPIDs equal RFC 8832; FORWARD-TSN serial comparison. No-merge/no-split under loss is not decided."),
     "C13": ("§4 C13", "Single wire exit with CRC32c over the finished packet stored little-endian at bytes 8..12; evaluated size constants and their use in batching/fragmentation; TSNs only from next_tsn.fetch_add(1) under the sent_queue lock; verification-tag argument flow with a 3-entry RFC exception table; dequeue loop bounded by a budget derived from rwnd/cwnd/flight. Window arithmetic correctness and quiescence are not decided."),
     "C14": ("§4 C14", "Negative property over every path = cut-set: every RTP/RTCP egress is cut by protect(Ok)-on-the-sent-buffer or the sender's srtp_required==false; every ingress delivery by unprotect(Ok) or srtp_required==false; who-may-call IceConn egress; srtp_required wiring at construction."),
+    "C15": ("§4 C15", "Thin claim, table agreement only: RTCP (packet type, FMT) pairs written per variant equal the RFC numbers and the parser dispatch is their inverse; RTP version and header-extension profile ids. Inverse laws over all packets are value-level and not decided."),
+    "C16": ("§4 C16", "Thin claim, table agreement and ordering only: STUN method/class bit tables and attribute type codes of encoder and decoder agree with each other and with RFC 5389/5766/IANA; magic cookie / FINGERPRINT constants; padding on every append path; MESSAGE-INTEGRITY before FINGERPRINT, each after a length fix-up. XOR algebra, HMAC/CRC values, priorities and candidate round trips are not decided."),
     "C17": ("§4 C17", "Spawn census (every JoinHandle flows into track_task / LoopsGuard / the caller, or the detached task is in a reviewed table with a machine-checked termination witness), close-path completeness derived from the transport-typed fields of PeerConnectionInner, cleanup guard armed before the first await, close wakes both Notify objects and waiters re-test Closed. Bounded time, descriptor counts and racing terminating events are not decided."),
     "C18": ("§4 C18", "Who-may-write the latch state plus cut-set rules for stickiness and legitimacy (each destination write cut separately by unlatched / expected-SSRC / not-RTCP / latching-enabled) for all packet histories; rule precedence among candidates is not decided."),
     "C19": ("§4 C19", "State discipline of RewriteBridge::rewrite_packet that stream continuity rests on (stable per-source output SSRC keyed by the source SSRC read before the rewrite, sequence counter advanced by exactly one per packet, timestamp offset changed only at discontinuities) and single delivery in RtpTransport::receive. Which listener a packet is routed to and wraparound arithmetic are not decided."),
